@@ -152,11 +152,16 @@ pub(crate) mod verif_c18 {
       _ => DomainIds::Max(kani::any()),
     }
   }
-  // a vector of symbolic length lo..=hi (hi <= 3) built without reallocation
+  // a vector of symbolic length lo..=hi: one allocation of the maximal size, hi generated elements,
+  // and only the length symbolic (elements beyond it are leaked) - keeps every pointer concrete
   pub fn any_vec<T>(lo: usize, hi: usize, mut f: impl FnMut() -> T) -> Vec<T> {
+    let mut v = Vec::with_capacity(hi);
+    let mut k = 0;
+    while k < hi { v.push(f()); k += 1; }
     let n: usize = kani::any();
-    kani::assume(lo <= n && n <= hi && n <= 3);
-    match n { 0 => Vec::new(), 1 => vec![f()], 2 => vec![f(), f()], _ => vec![f(), f(), f()] }
+    kani::assume(lo <= n && n <= hi);
+    unsafe { v.set_len(n); }
+    v
   }
   const TAGS: [(&str, &str); 3] = [("n", "v"), ("n", "w"), ("m", "v")];
   pub fn any_tag() -> (&'static str, &'static str) {
